@@ -241,43 +241,17 @@ func (engine *Engine) TakeSnapshot() error {
 		return err
 	}
 
-	// os.Create will replace the old manifest file
-	mf, err = os.Create(path.Join(dirname, "manifest.bin"))
-	if err != nil {
-		log.Println(err)
-		return err
-	}
-
-	// Write the latest manifest data
-	manifest = &Manifest{
-		LatestSnapshotHash:         md5.Sum(out),
-		LatestSnapshotMilliseconds: msec,
-	}
-	mo, err := json.Marshal(manifest)
-	if err != nil {
-		log.Println(err)
-		return err
-	}
-	if _, err = mf.Write(mo); err != nil {
-		log.Println(err)
-		return err
-	}
-	if err = mf.Sync(); err != nil {
-		log.Println(err)
-	}
-	if err = mf.Close(); err != nil {
-		log.Println(err)
-		return err
-	}
+	// Write the state first: the manifest must never point at a snapshot that is not completely
+	// on disk, so that a crash at any point leaves the previous snapshot restorable.
 
 	// Create snapshot directory
-	dirname = path.Join(engine.directory, "snapshots", fmt.Sprintf("%d", msec))
-	if err := os.MkdirAll(dirname, os.ModePerm); err != nil {
+	snapshotDirname := path.Join(engine.directory, "snapshots", fmt.Sprintf("%d", msec))
+	if err := os.MkdirAll(snapshotDirname, os.ModePerm); err != nil {
 		return err
 	}
 
 	// Create snapshot file
-	f, err := os.OpenFile(path.Join(dirname, "state.bin"), os.O_WRONLY|os.O_CREATE, os.ModePerm)
+	f, err := os.OpenFile(path.Join(snapshotDirname, "state.bin"), os.O_WRONLY|os.O_CREATE|os.O_TRUNC, os.ModePerm)
 	if err != nil {
 		log.Println(err)
 		return err
@@ -294,6 +268,42 @@ func (engine *Engine) TakeSnapshot() error {
 	}
 	if err = f.Sync(); err != nil {
 		log.Println(err)
+		return err
+	}
+
+	// Write the latest manifest data to a temporary file and move it over the old manifest,
+	// so that the manifest is replaced in one step.
+	manifest = &Manifest{
+		LatestSnapshotHash:         md5.Sum(out),
+		LatestSnapshotMilliseconds: msec,
+	}
+	mo, err := json.Marshal(manifest)
+	if err != nil {
+		log.Println(err)
+		return err
+	}
+	mf, err = os.Create(path.Join(dirname, "manifest.bin.tmp"))
+	if err != nil {
+		log.Println(err)
+		return err
+	}
+	if _, err = mf.Write(mo); err != nil {
+		log.Println(err)
+		_ = mf.Close()
+		return err
+	}
+	if err = mf.Sync(); err != nil {
+		log.Println(err)
+		_ = mf.Close()
+		return err
+	}
+	if err = mf.Close(); err != nil {
+		log.Println(err)
+		return err
+	}
+	if err = os.Rename(path.Join(dirname, "manifest.bin.tmp"), path.Join(dirname, "manifest.bin")); err != nil {
+		log.Println(err)
+		return err
 	}
 
 	// Set the latest snapshot in unix milliseconds
